@@ -1391,9 +1391,9 @@ def _is_known(prop, clause, inputs, observed=None):
             continue
 
         if entry['predicate'](inputs, observed):
-            return True
+            return entry['id']
 
-    return False
+    return None
 
 
 def _run_suite(prop, scenarios, runner, describe, tier, exhaustive, rule,
@@ -1442,8 +1442,9 @@ def _run_suite(prop, scenarios, runner, describe, tier, exhaustive, rule,
                             else _json(outcome['failures'][:2])})
 
         for clause, observed in outcome['failures']:
-            known = _is_known(prop, clause, inputs, observed)
-            key = '%s%s' % (clause, '' if known else ' (UNKNOWN)')
+            known_id = _is_known(prop, clause, inputs, observed)
+            known = bool(known_id)
+            key = '%s%s' % (clause, (' | ' + known_id) if known else ' (UNKNOWN)')
             failure_counts[key] = failure_counts.get(key, 0) + 1
             per_clause = sum(1 for item in failures
                              if item['clause'] == clause and
@@ -1453,7 +1454,7 @@ def _run_suite(prop, scenarios, runner, describe, tier, exhaustive, rule,
                 failures.append({'clause': clause,
                                  'inputs': _json(inputs),
                                  'observed': _json(observed),
-                                 'known': known})
+                                 'known': known, 'known_id': known_id})
 
     if not samples and evaluations:
         samples.append({'inputs': _json(describe(scenarios[0])),
@@ -3567,8 +3568,9 @@ def suite_C14(tier='quick', seed=0):
                     'first_difference': difference,
                 }
                 clause = 'hash-seed-deterministic'
-                known = _is_known('C14', clause, _json(inputs), observed)
-                name = '%s%s' % (clause, '' if known else ' (UNKNOWN)')
+                known_id = _is_known('C14', clause, _json(inputs), observed)
+                known = bool(known_id)
+                name = '%s%s' % (clause, (' | ' + known_id) if known else ' (UNKNOWN)')
                 report['failure_counts'][name] = \
                     report['failure_counts'].get(name, 0) + 1
                 seed_failures += 1
@@ -3578,7 +3580,7 @@ def suite_C14(tier='quick', seed=0):
                 if len(report['failures']) < 10 and listed < 4:
                     report['failures'].append({
                         'clause': clause, 'inputs': _json(inputs),
-                        'observed': _json(observed), 'known': known})
+                        'observed': _json(observed), 'known': known, 'known_id': known_id})
 
     report['seed_runs'] = dict((str(seed_value),
                                 len(outputs) if isinstance(outputs, list)
@@ -3966,6 +3968,9 @@ KNOWN = [
                       {'db_table': 'shop_orderx'}]]]},
     },
 ]
+
+for _n, _entry in enumerate(KNOWN):
+    _entry['id'] = '%s-%s-%d' % (_entry['property'], _entry['clause'], _n)
 
 
 def _main(argv):
